@@ -256,11 +256,14 @@ Hypothesis HP_layer : forall n, legal_name n = true -> n <> [] -> under L (layer
 Hypothesis HP_conf : forall n, legal_name n = true ->
   under L (pathjoin [layer_path c n; D_LayerconfigFile]) = true.
 
-Lemma stepsA_write_layerfile l : layer_ok c l -> stepsA (write_layerfile e l).
+Lemma stepsA_write_layerfile' l : legal_name (l_name l) = true -> l_path l = layer_path c (l_name l) ->
+  stepsA (write_layerfile e l).
 Proof.
-  intros (H1 & H2 & _). unfold write_layerfile, layerconfig_path. apply stepsA_wfa.
+  intros H1 H2. unfold write_layerfile, layerconfig_path. apply stepsA_wfa.
   rewrite H2. apply HP_conf, H1.
 Qed.
+Lemma stepsA_write_layerfile l : layer_ok c l -> stepsA (write_layerfile e l).
+Proof. intros (H1 & H2 & _). apply stepsA_write_layerfile'; assumption. Qed.
 
 (* removing the export links of a layer: only symlink entries go *)
 Lemma stepsR_remove_export_links l :
